@@ -159,8 +159,20 @@ fn mk_fixed(layout: Layout, kar: bool) -> Fixed {
 }
 
 fn fixed_type(ctx: &Ctx, ks: &[(u16, u8)], case: &dyn Fn() -> Value) -> Result<(Vec<String>, String), Failure> {
+    fixed_type_after(ctx, None, ks, case)
+}
+
+/// `refused`: a key the layout does not accept (a number-pad key while the option is off, the number-pad '=')
+/// pressed from the idle state right before the entry - it composes nothing and starts nothing, so it cannot count.
+fn fixed_type_after(ctx: &Ctx, refused: Option<u16>, ks: &[(u16, u8)], case: &dyn Fn() -> Value) -> Result<(Vec<String>, String), Failure> {
     let pf = |p: crate::driver::PanicInfo| Failure::new(panic_kind(&p), p.to_string(), case());
     ctx.finish().map_err(pf)?;
+    if let Some(code) = refused {
+        let r = ctx.key(code, 0, 0).map_err(pf)?;
+        if !r.is_empty() || ctx.ongoing() {
+            return Err(Failure::new("refused-key-not-refused", format!("key code {code} is not in the layout (number pad off) but returned {} / ongoing {}", r.short(), ctx.ongoing()), case()));
+        }
+    }
     let mut last = None;
     for (c, m) in ks {
         last = Some(ctx.key(*c, *m, 0).map_err(pf)?);
@@ -209,6 +221,20 @@ fn fixed_entry(run: &Run, lo: &Fixed, st: &mut Stats, name: &str, emojis: &[Stri
     for (ctx, eng) in [(&lo.plain, false), (&lo.english, true)] {
         let case = || json!({"method": format!("{:?}", lo.layout), "opts": ctx.opts.letters(), "text": text, "entry": name, "emoticon": is_emoticon, "wrap": [wrap.0, wrap.1], "english": eng});
         let (list, composed) = fixed_type(ctx, &ks, &case)?;
+        // the same entry right after a refused key (from idle): the list must be the same
+        for name_of_key in ["KP_EQUALS", "KP_5"] {
+            if let Some(k) = keys().by_name(name_of_key) {
+                let (l2, _) = fixed_type_after(ctx, Some(k.code), &ks, &case)?;
+                st.count("entries-typed-after-a-refused-key", 1);
+                if l2 != list {
+                    return Err(Failure::new(
+                        "refused-key-changes-the-next-word",
+                        format!("{:?}, {text:?} typed right after the refused key {name_of_key} (idle, number pad off): list {l2:?}, without that key {list:?}", lo.layout),
+                        case(),
+                    ));
+                }
+            }
+        }
         if !is_emoticon && composed != text {
             // a composition helper changed the text (traditional joining): the name is no longer what was typed
             st.skip("composed-text-differs-from-name");
